@@ -31,11 +31,142 @@ type G = Vec<[SimpleTerm<'static>; 3]>;
 fn comps(p: &Path) -> Vec<String> { p.components().filter_map(|c| match c { std::path::Component::Normal(s) => Some(s.to_str().unwrap().to_string()), _ => None }).collect() }
 fn c_path(p: &[String]) -> String { coq_list(p.iter().map(|s| coq_str(s))) }
 
+// ---------- loaders are VALUES: histories over several loader values alive at once (coq/C19/History.v) ----------
+#[derive(Clone, Debug)]
+enum HOp {
+    /// LocalLoader::new(mappings), or LocalLoader::default() when new() refuses
+    New(Vec<(String, String)>),
+    /// a new value copied from loader i: 0 = clone(), 1 = clone().arced(), 2 = loader i becomes an Arc and the new value is Arc::clone of it
+    Clone(usize, u8),
+    /// loader i .add(ns, dir) (through Arc::make_mut when the value is held in an Arc)
+    Add(usize, String, String),
+    /// loader i .get(iri): 0 = direct, 1 = from another thread by reference, 2 = the loader is moved to another thread and back,
+    /// 3 = through an Arc clone moved to another thread, 4 = get_graph first (checked against the marker of the file), then get
+    Get(usize, String, u8),
+    /// loader i is dropped and replaced by LocalLoader::default()
+    Reset(usize),
+}
+enum Slot { Owned(LocalLoader), Arced(Arc<LocalLoader>) }
+impl Slot { fn l(&self) -> &LocalLoader { match self { Slot::Owned(l) => l, Slot::Arced(a) => a } } }
+struct GetObs { code: u64, pth: Vec<String>, ct: u64, desc: String, raw: Option<String> }
+fn classify(res: &Result<(Vec<u8>, String), LoaderError>) -> GetObs {
+    match res {
+        Ok((data, ctype)) => {
+            let s = String::from_utf8_lossy(data).to_string();
+            let ct = match ctype.as_str() { "text/turtle" => 1, "application/n-triples" => 2, "application/ld+json" => 3, "application/rdf+xml" => 4, _ => 0 };
+            let file = path_of(&s.replace("CANARY-PATH:", "PATH:"));
+            GetObs { code: 0, pth: comps(Path::new(&file)), ct, desc: format!("Ok(content of {file}, {ctype})"), raw: Some(s) }
+        }
+        Err(LoaderError::NotFound(_)) => GetObs { code: 1, pth: vec![], ct: 0, desc: "NotFound".into(), raw: None },
+        Err(LoaderError::UnsupportedIri(..)) => GetObs { code: 2, pth: vec![], ct: 0, desc: "UnsupportedIri".into(), raw: None },
+        Err(LoaderError::IoError(..)) => GetObs { code: 3, pth: vec![], ct: 0, desc: "IoError".into(), raw: None },
+        Err(e) => GetObs { code: 9, pth: vec![], ct: 0, desc: format!("{e:?}"), raw: None },
+    }
+}
+/// the documented pre-conditions of a mapping: Ok(the directory) or the refusal code (1 slash, 2 absolute, 3 directory)
+fn precond(ns: &str, d: &str) -> Result<PathBuf, u64> {
+    let p = Path::new(d);
+    if !ns.ends_with('/') { Err(1) } else if !d.starts_with('/') { Err(2) } else if !std::fs::metadata(p).map(|m| m.is_dir()).unwrap_or(false) { Err(3) } else { Ok(p.canonicalize().unwrap()) }
+}
+/// the property itself, for one answer: the served file is no canary and lies inside a directory that THIS loader value maps to a
+/// namespace prefixing the IRI; returns the offending file otherwise
+fn leak(raw: &str, iri: &str, maps: &[(String, PathBuf)]) -> Option<String> {
+    let canary = raw.starts_with("CANARY:") || raw.contains("CANARY-PATH:") || raw.contains("CANARY");
+    let file = path_of(&raw.replace("CANARY-PATH:", "PATH:"));
+    let no_frag = iri.split('#').next().unwrap();
+    let ok = !canary && maps.iter().any(|(ns, d)| no_frag.starts_with(ns.as_str()) && Path::new(&file).starts_with(d));
+    if ok { None } else { Some(if canary { format!("CANARY:{file}") } else { file }) }
+}
+/// Runs a history on real loader values. Returns (Coq list of operations, Coq list of observations, trace, oracle failures).
+fn run_history(ops: &[HOp]) -> (String, String, Vec<String>, Vec<String>) {
+    let mut slots: Vec<Slot> = vec![];
+    let mut acc: Vec<Vec<(String, PathBuf)>> = vec![];   // independent book-keeping: the acceptable mappings of each value
+    let (mut c_ops, mut c_obs, mut trace, mut fails) = (vec![], vec![], vec![], vec![]);
+    let mk_iri = |n: &str| Iri::new_unchecked(n.to_string().into());
+    let show = |acc: &Vec<(String, PathBuf)>| format!("{:?}", acc.iter().map(|(n, d)| format!("{n} -> {}", d.display())).collect::<Vec<_>>());
+    for (k, op) in ops.iter().enumerate() {
+        match op {
+            HOp::New(l) => {
+                let mut first_err = 0u64; let mut a = vec![];
+                for (n, d) in l { match precond(n, d) { Ok(p) => a.push((n.clone(), p)), Err(c) => { if first_err == 0 { first_err = c } } } }
+                let code = match LocalLoader::new(l.iter().map(|(n, d)| (mk_iri(n), PathBuf::from(d))).collect()) {
+                    Ok(x) => { slots.push(Slot::Owned(x)); 0 }
+                    Err(e) => { slots.push(Slot::Owned(LocalLoader::default())); use sophia_resource::loader::LocalLoaderError::*; match e { IriMustEndWithSlash(_) => 1, PathMustBeAbsolute(_) => 2, PathMustBeDirectory(_) => 3 } }
+                };
+                if code != first_err { fails.push(format!("history step {k}: LocalLoader::new({l:?}) answered code {code}, the first offending mapping gives {first_err}")); }
+                acc.push(if first_err == 0 { a } else { vec![] });
+                c_ops.push(format!("HNew {}", coq_list(l.iter().map(|(n, d)| format!("({}, {})", coq_str(n), coq_str(d))))));
+                c_obs.push(format!("OCode {code}"));
+                trace.push(format!("L{} = new({l:?}) -> code {code}", slots.len() - 1));
+            }
+            HOp::Clone(i, how) => {
+                let new = match how {
+                    0 => Slot::Owned(slots[*i].l().clone()),
+                    1 => Slot::Arced(slots[*i].l().clone().arced()),
+                    _ => {
+                        let a = match std::mem::replace(&mut slots[*i], Slot::Owned(LocalLoader::default())) { Slot::Owned(l) => l.arced(), Slot::Arced(a) => a };
+                        slots[*i] = Slot::Arced(a.clone());
+                        Slot::Arced(a)
+                    }
+                };
+                slots.push(new); let a = acc[*i].clone(); acc.push(a);
+                c_ops.push(format!("HClone {i}")); c_obs.push("ONone".into());
+                trace.push(format!("L{} = L{i}.{}", slots.len() - 1, ["clone()", "clone().arced()", "arced() shared by Arc::clone"][(*how).min(2) as usize]));
+            }
+            HOp::Add(i, n, d) => {
+                let want = match precond(n, d) { Ok(p) => { acc[*i].push((n.clone(), p)); 0 } Err(c) => c };
+                let r = match &mut slots[*i] { Slot::Owned(l) => l.add(mk_iri(n), PathBuf::from(d)), Slot::Arced(a) => Arc::make_mut(a).add(mk_iri(n), PathBuf::from(d)) };
+                let code = match r { Ok(()) => 0, Err(e) => { use sophia_resource::loader::LocalLoaderError::*; match e { IriMustEndWithSlash(_) => 1, PathMustBeAbsolute(_) => 2, PathMustBeDirectory(_) => 3 } } };
+                if code != want { fails.push(format!("history step {k}: L{i}.add({n:?}, {d:?}) answered code {code} (0 accepted, 1 slash, 2 absolute, 3 directory), the documented pre-conditions give {want}")); }
+                c_ops.push(format!("HAdd {i} {} {}", coq_str(n), coq_str(d))); c_obs.push(format!("OCode {code}"));
+                trace.push(format!("L{i}.add({n:?}, {d:?}) -> code {code}"));
+            }
+            HOp::Reset(i) => {
+                slots[*i] = Slot::Owned(LocalLoader::default()); acc[*i] = vec![];
+                c_ops.push(format!("HReset {i}")); c_obs.push("ONone".into());
+                trace.push(format!("L{i} dropped, replaced by LocalLoader::default()"));
+            }
+            HOp::Get(i, iri, via) => {
+                if *via == 4 {
+                    let g: Result<G, _> = slots[*i].l().get_graph(Iri::new_unchecked(iri.split('#').next().unwrap()));
+                    if let Ok(g) = g {
+                        for t in g.triples_matching(Any, [Iri::new_unchecked("http://x/marker")], Any) {
+                            let m = t.unwrap().o().lexical_form().map(|l| l.to_string()).unwrap_or_default();
+                            if let Some(f) = leak(&m, iri, &acc[*i]) { fails.push(format!("history step {k}: L{i}.get_graph({iri:?}) parsed {f}, which is outside every directory that THIS loader value maps to a namespace prefixing the IRI; L{i} has {}; history: {}", show(&acc[*i]), trace.join("; "))); }
+                        }
+                    }
+                }
+                let is_arc = matches!(slots[*i], Slot::Arced(_));
+                let mode = match (*via, is_arc) { (1, _) | (3, false) => 1, (2, false) => 2, (2, true) | (3, true) => 3, _ => 0 };
+                let o = match mode {
+                    1 => { let l = slots[*i].l(); std::thread::scope(|sc| sc.spawn(|| classify(&l.get(Iri::new_unchecked(iri.as_str())))).join().unwrap()) }
+                    2 => {
+                        let Slot::Owned(l) = std::mem::replace(&mut slots[*i], Slot::Owned(LocalLoader::default())) else { unreachable!() };
+                        let iri2 = iri.clone();
+                        let (l, o) = std::thread::spawn(move || { let o = classify(&l.get(Iri::new_unchecked(iri2.as_str()))); (l, o) }).join().unwrap();
+                        slots[*i] = Slot::Owned(l); o
+                    }
+                    3 => { let Slot::Arced(a) = &slots[*i] else { unreachable!() }; let a2 = a.clone(); let iri2 = iri.clone(); std::thread::spawn(move || classify(&a2.get(Iri::new_unchecked(iri2.as_str())))).join().unwrap() }
+                    _ => classify(&slots[*i].l().get(Iri::new_unchecked(iri.as_str()))),
+                };
+                if let Some(raw) = &o.raw {
+                    if let Some(f) = leak(raw, iri, &acc[*i]) { fails.push(format!("history step {k}: L{i}.get({iri:?}) returned the content of {f}, which is outside every directory that THIS loader value maps to a namespace prefixing the IRI; L{i} has {}; history: {}", show(&acc[*i]), trace.join("; "))); }
+                }
+                c_ops.push(format!("HGet {i} {}", coq_str(iri))); c_obs.push(format!("OGot {} {} {}", o.code, c_path(&o.pth), o.ct));
+                trace.push(format!("L{i}.get({iri:?}){} -> {}", ["", " [other thread, by reference]", " [loader moved to another thread]", " [Arc clone moved to another thread]", " [after get_graph]"][(*via).min(4) as usize], o.desc));
+            }
+        }
+    }
+    (coq_list(c_ops), coq_list(c_obs), trace, fails)
+}
+
 fn main() {
     let a = parse_args();
     let mut sum = Summary::default();
     sum.rule = "case = (order of two overlapping namespace->directory mappings, IRI built from a namespace or a foreign prefix + 0..5 segments drawn from {names of files/dirs, '..', '.', '', percent-encoded dots, dotted names, the absolute path of a canary} + optional query/fragment); \
-non-trivial = the IRI contains a dot/empty/encoded segment or an absolute remainder, or resolves through content negotiation; distinct = distinct (config, IRI)".into();
+non-trivial = the IRI contains a dot/empty/encoded segment or an absolute remainder, or resolves through content negotiation; distinct = distinct (config, IRI); \
+plus (a) IRIs of other schemes built on the mapped directories (file://<dir>/.., file://localhost<dir>/.., file:<dir>/.., percent escapes, http(s)/ftp/urn IRIs outside every namespace), also against configurations whose namespace is itself a file: IRI; \
+(b) histories over several loader VALUES alive at once (new / clone / arced / Arc::clone / add / get from other threads / drop), each get checked against the configuration of the value it was sent to (random histories + directed clone-add-get streams in both orders)".into();
     let root = PathBuf::from(&a.out).join("fsroot");
     let _ = std::fs::remove_dir_all(&root);
     let root = { std::fs::create_dir_all(&root).unwrap(); root.canonicalize().unwrap() };
@@ -53,7 +184,7 @@ non-trivial = the IRI contains a dot/empty/encoded segment or an absolute remain
     let c_fs = coq_list(fs_entries.iter().map(|(p, f)| format!("({}, {})", c_path(p), coq_bool(*f))));
     let ns1 = "http://e/ns/"; let ns2 = "http://e/ns/sub/";
     let (d1, d2) = (root.join("r1"), root.join("r2"));
-    let header = format!("From Sophia.C19 Require Import Model Config.\nFrom Sophia.gen Require Consts.\nDefinition the_fs : fsys := {c_fs}.\nDefinition cfgA : list cache := [({}, {}); ({}, {})].\nDefinition cfgB : list cache := [({}, {}); ({}, {})].\n",
+    let header = format!("From Sophia.C19 Require Import Model Config History.\nFrom Sophia.gen Require Consts.\nDefinition the_fs : fsys := {c_fs}.\nDefinition cfgA : list cache := [({}, {}); ({}, {})].\nDefinition cfgB : list cache := [({}, {}); ({}, {})].\n",
         coq_str(ns1), c_path(&comps(&d1)), coq_str(ns2), c_path(&comps(&d2)), coq_str(ns2), c_path(&comps(&d2)), coq_str(ns1), c_path(&comps(&d1)));
     let loader_a = LocalLoader::new(vec![(Iri::new_unchecked(ns1.into()), d1.clone()), (Iri::new_unchecked(ns2.into()), d2.clone())]).unwrap();
     let loader_b = LocalLoader::new(vec![(Iri::new_unchecked(ns2.into()), d2.clone()), (Iri::new_unchecked(ns1.into()), d1.clone())]).unwrap();
@@ -93,11 +224,72 @@ non-trivial = the IRI contains a dot/empty/encoded segment or an absolute remain
     let cfg_code = |e: &sophia_resource::loader::LocalLoaderError| -> u64 { use sophia_resource::loader::LocalLoaderError::*; match e { IriMustEndWithSlash(_) => 1, PathMustBeAbsolute(_) => 2, PathMustBeDirectory(_) => 3 } };
     let canary_abs = root.join("secret").display().to_string();
     let segs: Vec<String> = ["a", "b", "d", "c.rdf", "c", "e", "..", ".", "", "%2e%2e", "%2E%2E", "%2e", "...", ".hidden", "sub", "inner", "g", "g.ttl", "secret", "outside", "a.ttl", "b.nt", "f", "r1", "r2", "r1x", "..%2f", "%2f"].iter().map(|s| s.to_string()).collect();
+    // histories over several loader values: mappings (the first HIST_OK are acceptable) and request tails
+    let hist_pool: Vec<(String, String)> = vec![
+        (ns1.into(), format!("{rs}/r1")), (ns2.into(), format!("{rs}/r2")), ("http://e/ns3/".into(), format!("{rs}/r1/sub")), ("http://priv/".into(), format!("{rs}/r2/d")),
+        ("http://e/".into(), format!("{rs}/r1/d")), (ns1.into(), format!("{rs}/r2")), ("http://priv/".into(), format!("{rs}/r1")), (format!("file://{rs}/r1/"), format!("{rs}/r1")),
+        (ns2.into(), format!("{rs}/r1/../r2")), ("http://priv/".into(), format!("{rs}/r2")),
+        ("http://e/ns".into(), format!("{rs}/r1")), (ns1.into(), "r1".into()), (ns2.into(), format!("{rs}/secret")), (ns1.into(), format!("{rs}/no-such-dir")), ("http://priv".into(), format!("{rs}/r2")),
+    ];
+    const HIST_OK: usize = 10;
+    let hist_tails = ["a.ttl", "a", "b", "b.nt", "d/c.rdf", "d/c", "d/e", "e", "e.nt", "g", "g.ttl", "inner", "inner.ttl", "sub/inner", "c", "c.rdf", "f", "f.jsonld", "a.ttl", "a", "g",
+                      "../secret.ttl", "../r2/a", "./a", "d//e", "../r1/a.ttl", "", "sub/../a.ttl", "%2e%2e/secret"];
+    let gen_history = |r: &mut Rng| -> Vec<HOp> {
+        // a theme of a few mappings; the requests are built on the namespaces of the theme, so that the same IRI is asked of several values
+        let theme: Vec<(String, String)> = (0..r.range(2, 3)).map(|_| if r.chance(7, 8) { hist_pool[r.below(HIST_OK)].clone() } else { r.pick(&hist_pool).clone() }).collect();
+        let mapping = |r: &mut Rng| if r.chance(7, 8) { r.pick(&theme).clone() } else { r.pick(&hist_pool).clone() };
+        let iris: Vec<String> = (0..r.range(2, 3)).map(|_| format!("{}{}", r.pick(&theme).0, r.ps(&hist_tails))).filter(|i| Iri::new(i.as_str()).is_ok()).collect();
+        let iris = if iris.is_empty() { vec![format!("{ns1}a")] } else { iris };
+        let request = |r: &mut Rng| { let mut i = r.pick(&iris).clone(); if r.chance(1, 4) { i.push_str("#x"); } i };
+        let mut ops = vec![HOp::New((0..r.below(3)).map(|_| mapping(r)).collect())];
+        let mut n = 1usize;
+        for _ in 0..r.range(5, 14) {
+            match r.below(20) {
+                10..=13 => { let (ns, d) = mapping(r); ops.push(HOp::Add(r.below(n), ns, d)); }
+                14..=16 if n < 5 => {
+                    ops.push(HOp::Clone(r.below(n), r.below(3) as u8)); n += 1;
+                    // configurations diverge: add to one of the two copies only
+                    if r.chance(1, 2) { let (ns, d) = mapping(r); ops.push(HOp::Add(n - 1, ns, d)); }
+                }
+                17 if n < 5 => { ops.push(HOp::New((0..r.below(3)).map(|_| mapping(r)).collect())); n += 1; }
+                18 => ops.push(HOp::Reset(r.below(n))),
+                _ => ops.push(HOp::Get(r.below(n), request(r), *r.pick(&[0u8, 0, 0, 1, 2, 3]))),
+            }
+        }
+        // every value is asked for every IRI of the history at the end
+        if r.chance(1, 2) { for i in 0..n { for q in &iris { ops.push(HOp::Get(i, q.clone(), 0)); } } }
+        ops
+    };
     let base = Rng::new(a.seed);
     let mut cases = vec![]; let mut seen = std::collections::HashSet::new();
     let range: Vec<usize> = match a.only { Some(i) => vec![i], None => (0..a.n).collect() };
     for idx in range {
         let mut r = base.fork(idx as u64);
+        // choices of the round-6 streams come from a second generator, so that the older streams keep their cases
+        let mut r2 = base.fork((idx as u64) ^ 0x5EED_C190_0000_0000);
+        if r2.chance(1, 6) {
+            let ops = gen_history(&mut r2);
+            let (c_ops, c_obs, trace, fails) = run_history(&ops);
+            let gets = ops.iter().filter(|o| matches!(o, HOp::Get(..))).count() as u64;
+            let values = 1 + ops.iter().skip(1).filter(|o| matches!(o, HOp::Clone(..) | HOp::New(..))).count();
+            sum.evaluations += gets.max(1); sum.bump("history:random"); sum.bump_by("history:gets", gets);
+            if ops.iter().any(|o| matches!(o, HOp::Clone(..))) { sum.bump("history:with-clone"); }
+            if ops.iter().any(|o| matches!(o, HOp::Get(_, _, v) if *v != 0)) { sum.bump("history:get-from-another-thread"); }
+            {
+                // the point of the stream: the same IRI (up to its fragment) served by one value and refused by another
+                let mut by_iri: std::collections::HashMap<String, (bool, bool)> = Default::default();
+                for t in &trace { if let Some(p) = t.find(".get(\"") { let q = t[p + 6..].split(|c| c == '"' || c == '#').next().unwrap().to_string(); let e = by_iri.entry(q).or_default(); if t.contains("-> Ok(") { e.0 = true } else if t.contains("-> UnsupportedIri") { e.1 = true } } }
+                if by_iri.values().any(|e| e.0) { sum.bump("history:random-with-a-file-served"); }
+                if by_iri.values().any(|e| e.0 && e.1) { sum.bump("history:random-same-IRI-served-and-refused"); }
+            }
+            let text = trace.join("; ");
+            if a.only.is_some() { println!("CASE {idx}: history\n  {}", trace.join("\n  ")); }
+            if seen.insert(text.clone()) && values >= 2 { sum.distinct_nontrivial += 1; }
+            if sum.samples.len() < 7 && values >= 2 && idx % 5 == 0 { sum.samples.push(format!("case {idx}: history {text}")); }
+            for f in fails { sum.oracle_failures.push((idx.to_string(), f)); }
+            cases.push((idx, format!("hist_ok the_fs Consts.loader_exts {c_ops} {c_obs}")));
+            continue;
+        }
         let use_b = r.chance(1, 2);
         let mut prefix = *r.pick(&[ns1, ns1, ns1, ns1, ns1, ns1, ns2, ns2, "http://e/ns", "http://e/", "http://other/ns/", "http://e/ns/sub", "http://e/outside", "http://e/rel/", "http://e/file/", "http://e/missing/", "http://e/ns3/", "http://e/ns/sub/deep/", "http://e/ns3/", "http://e/"]);
         let n = r.below(6);
@@ -130,13 +322,45 @@ non-trivial = the IRI contains a dot/empty/encoded segment or an absolute remain
         if long { path.push("x".repeat(300)); }
         // the namespace itself (and "the namespace plus ./"): the last path component is then the mapped directory
         if !abs_attack && !climb && r.chance(1, 12) { path = match r.below(4) { 0 => vec![], 1 => vec![".".into()], 2 => vec!["".into()], _ => vec![".".into(), "".into()] }; }
+        // IRIs of other schemes that a loader might serve specially, built on the mapped directories
+        let scheme = r2.chance(1, 7);
+        let mut scheme_file = false;
+        let mut scheme_dir = String::new();
+        let prefix: String = if scheme {
+            let mut d = r2.pick(&[d1.display().to_string(), d1.display().to_string(), d2.display().to_string(), rs.clone(), format!("{rs}/r1/sub"), format!("{rs}/r1/d"), format!("{rs}/r1x"), String::new()]).clone();
+            scheme_dir = d.clone();
+            if !d.is_empty() && r2.chance(1, 6) {
+                // a percent escape in the directory part (an alphanumeric character, a dot or a slash)
+                let pos: Vec<usize> = d.char_indices().filter(|(i, c)| *i > 0 && (c.is_ascii_alphanumeric() || *c == '/' || *c == '.')).map(|(i, _)| i).collect();
+                let k = *r2.pick(&pos); let c = d.as_bytes()[k];
+                d = format!("{}%{:02x}{}", &d[..k], c, &d[k + 1..]);
+            }
+            let k = r2.below(22);
+            scheme_file = k < 12;
+            match k {
+                0 | 1 | 2 => format!("file://{d}/"), 3 | 4 => format!("file://localhost{d}/"), 5 | 6 => format!("file:{d}/"), 7 => format!("file:///{}/", d.trim_start_matches('/')),
+                8 => format!("FILE://{d}/"), 9 => format!("file://LOCALHOST{d}/"), 10 => format!("file://127.0.0.1{d}/"), 11 => format!("file://e{d}/"),
+                12 => "https://e/ns/".into(), 13 => "http://e:80/ns/".into(), 14 => "http://E/ns/".into(), 15 => format!("http://localhost{d}/"), 16 => format!("https://localhost{d}/"),
+                17 => "ftp://e/ns/".into(), 18 => "urn:example:ns/".into(), 19 => "http://user@e/ns/".into(), 20 => "http://e//ns/".into(), _ => "http://e/./ns/".into(),
+            }
+        } else { prefix.to_string() };
+        // directed: a file: IRI that starts with a mapped directory and climbs out of it by exactly the right number of levels
+        if scheme_file && r2.chance(1, 3) {
+            let depth = Path::new(&scheme_dir).strip_prefix(&root).map(|p| p.components().count()).unwrap_or(0);
+            let mut p: Vec<String> = (0..depth).map(|_| r2.ps(&["..", "..", "..", "./..", "%2e%2e", ".%2e", "sub/../..", "d/../..", "a.ttl/../..", ".//.."]).to_string()).collect();
+            if r2.chance(1, 4) { p.insert(0, r2.ps(&["sub/..", "d/e/../..", ".", "sub//.."]).to_string()); }
+            p.push(r2.ps(&["secret", "secret.ttl", "a.ttl", "g.ttl", "outside/secret.ttl", "outside/secret", "r1x/a.ttl", "r1x/a", "r2/a", "r1/b", "r1.ttl", "r1", "sub.ttl", "g"]).to_string());
+            path = p; sum.bump("other-scheme:file-directed-climb");
+        }
+        // ... half of the file: ones against a configuration whose namespace is itself a file: IRI
+        let force_gen = scheme_file && r2.chance(1, 2);
         let mut iri = format!("{prefix}{}", path.join("/"));
         if r.chance(1, 8) { iri.push_str("?q=1"); }
         if r.chance(1, 4) { iri.push_str("#frag/../x"); }
         let Ok(iri_v) = Iri::new(iri.clone()) else { continue };
         let use_c = !use_b && r.chance(1, 2);
         // a generated configuration for a quarter of the cases
-        let use_gen = r.chance(1, 4);
+        let use_gen = r.chance(1, 4) || force_gen;
         let mut gen_loader: Option<LocalLoader> = None;
         let mut gen_ops: Vec<(String, String)> = vec![];
         let mut gen_codes: Vec<u64> = vec![];
@@ -146,6 +370,14 @@ non-trivial = the IRI contains a dot/empty/encoded segment or an absolute remain
             let k = r.range(1, 4);
             // mostly acceptable mappings, so that new() often succeeds
             gen_ops = (0..k).map(|_| if r.chance(2, 3) { cfg_pool[r.below(9)].clone() } else { r.pick(&cfg_pool).clone() }).collect();
+            if force_gen {
+                let file_ns: Vec<(String, String)> = vec![(format!("file://{rs}/r1/"), format!("{rs}/r1")), (format!("file://{rs}/"), format!("{rs}/r1")), (format!("file://localhost{rs}/r2/"), format!("{rs}/r2")),
+                    (format!("file:{rs}/r1/"), format!("{rs}/r1")), ("file:///".into(), format!("{rs}/r2")), (format!("file://{rs}/r1/sub/"), format!("{rs}/r1/sub")), (format!("file://{rs}/r1"), format!("{rs}/r1"))];
+                gen_ops = (0..r2.range(1, 2)).map(|_| r2.pick(&file_ns).clone()).collect();
+                // mostly: the prefix of the IRI itself is the namespace, mapped to the directory it names when that is r1, r2 or below (the canaries live next to them), else to r1
+                if r2.chance(2, 3) { gen_ops[0] = (prefix.clone(), if (Path::new(&scheme_dir).starts_with(&d1) || Path::new(&scheme_dir).starts_with(&d2)) && Path::new(&scheme_dir).is_dir() && r2.chance(3, 4) { scheme_dir.clone() } else { format!("{rs}/r1") }); }
+                if r2.chance(1, 3) { gen_ops.push(cfg_pool[r2.below(9)].clone()); }
+            }
             let mk_iri = |n: &str| Iri::new_unchecked(n.to_string().into());
             if r.chance(1, 2) {
                 match LocalLoader::new(gen_ops.iter().map(|(n, d)| (mk_iri(n), PathBuf::from(d))).collect()) {
@@ -202,7 +434,8 @@ non-trivial = the IRI contains a dot/empty/encoded segment or an absolute remain
         }
         let text = format!("cfg={} iri={iri}", if use_gen { format!("{}{gen_ops:?}", if gen_new_err.is_some() { "new" } else { "adds" }) } else if use_b { "B".into() } else if use_c { "A(add)".into() } else { "A".into() });
         if a.only.is_some() { println!("CASE {idx}: {text} => {desc}"); }
-        let nontrivial = iri.contains("..") || iri.contains("/./") || iri.contains("//e") == false && iri[7..].contains("//") || iri.contains("%2") || abs_attack || (code == 0 && !iri.split('#').next().unwrap().ends_with(pth.last().map(|s| s.as_str()).unwrap_or("")));
+        if scheme { sum.bump(if scheme_file { "other-scheme:file" } else { "other-scheme:not-file" }); if code == 0 { sum.bump("other-scheme:served"); } }
+        let nontrivial = scheme || iri.contains("..") || iri.contains("/./") || iri.contains("//e") == false && iri[7..].contains("//") || iri.contains("%2") || abs_attack || (code == 0 && !iri.split('#').next().unwrap().ends_with(pth.last().map(|s| s.as_str()).unwrap_or("")));
         if seen.insert(text.clone()) && nontrivial { sum.distinct_nontrivial += 1; }
         sum.bump(&format!("result:{}", ["found", "not-found", "unsupported", "io-error"].get(code as usize).unwrap_or(&"other")));
         if valid { sum.bump("request-for-an-existing-file"); } if abs_attack { sum.bump("absolute-remainder"); } if climb { sum.bump("directed-climb"); } if iri.contains("..") { sum.bump("has-dotdot"); }
@@ -232,7 +465,15 @@ non-trivial = the IRI contains a dot/empty/encoded segment or an absolute remain
                 "../leak.ttl", "../leak", "d/../../leak.ttl", "%2e%2e/leak.ttl", "..%2fleak.ttl", "", "./", "sub//..//../leak.ttl", "t1.ttl/../../leak.ttl",
                 "sub/../../leak.ttl", "sub/t5.ttl", "sub/t5", "sub/../../outside/leak.nt", "../r1x/leak", "../r1", "../r1.ttl#x"].iter().map(|t| format!("{ns1}{t}")).collect();
             v.push(format!("{ns1}/{ca}")); v.push(format!("{ns1}//{ca}")); v.push("http://e/leak.ttl".into()); v.push("http://other/ns/t1.ttl".into()); v.push("file:///etc/hostname".into());
-            v.push(format!("{ns2}../leak.ttl")); v.push(format!("{ns2}t5.ttl")); v
+            v.push(format!("{ns2}../leak.ttl")); v.push(format!("{ns2}t5.ttl"));
+            // links with other schemes, built on the mapped directories (inside them, climbing out of them, plainly outside)
+            for pre in ["file://", "file://localhost", "file:", "FILE://", "https://localhost"] {
+                for t in ["r1/t1.ttl", "r1/t1", "r1/../leak.ttl", "r1/../leak", "r1/sub/../../leak.ttl", "r1/d/../../outside/leak.nt", "leak.ttl", "r1/%2e%2e/leak.ttl", "r1/..%2fleak.ttl", "r1/t1.ttl#frag", "r2/../leak.ttl", "r1//../leak.ttl", "r1/./../etc-leak.ttl"] {
+                    v.push(format!("{pre}{rs}/{t}"));
+                }
+            }
+            v.push(format!("file:///{}/r1/../leak.ttl", rs.trim_start_matches('/'))); v.push("https://e/ns/t1.ttl".into()); v.push("https://e/ns/../leak.ttl".into()); v.push("http://e:80/ns/t1.ttl".into());
+            v
         };
         // relative references as they may be written in a Turtle / JSON-LD / RDF-XML document (resolved by the parser against the document IRI)
         let hub_relative = ["../leak.ttl", "../../leak.ttl", "/leak.ttl", "/ns/../leak.ttl", "//e/ns/../leak.ttl", "t1.ttl", "./d/t2.nt", "d/../../leak", "..", ".", "sub/../../leak.ttl", "%2e%2e/leak.ttl"];
@@ -332,6 +573,63 @@ non-trivial = the IRI contains a dot/empty/encoded segment or an absolute remain
         let dir2 = format!("{}/links", a.out); std::fs::create_dir_all(&dir2).unwrap();
         let sh2 = write_shards(&dir2, &header2, &link_cases, 1);
         for f in sh2 { let _ = std::fs::rename(format!("{dir2}/{f}"), format!("{}/links_{f}", a.out)); extra_shards.push(format!("links_{f}")); }
+    }
+    // ---------- directed histories: clone / add to one copy only / request through both copies, in both orders ----------
+    if a.only.is_none() {
+        let own = |v: &[(&str, String)]| -> Vec<(String, String)> { v.iter().map(|(n, d)| (n.to_string(), d.clone())).collect() };
+        let bases: Vec<Vec<(String, String)>> = vec![vec![], own(&[(ns1, format!("{rs}/r1"))]), own(&[(ns2, format!("{rs}/r2"))]), own(&[(ns1, format!("{rs}/r1")), (ns2, format!("{rs}/r2"))]), own(&[("http://e/", format!("{rs}/r1/d"))])];
+        let file_ns = format!("file://{rs}/r2/");
+        let extras: Vec<((String, String), Vec<&str>)> = vec![
+            (("http://priv/".into(), format!("{rs}/r2")), vec!["a", "g.ttl", "g", "d/e.nt", "d/e", "t5.ttl", "t5", "./d//e"]),
+            ((ns2.into(), format!("{rs}/r2")), vec!["a", "g.ttl", "g", "d/e", "t5.ttl", "t5"]),
+            (("http://e/ns3/".into(), format!("{rs}/r1/sub")), vec!["inner.ttl", "inner", "t5.ttl", "t5"]),
+            // the namespace of another mapping, another directory: the first match wins, per value
+            ((ns1.into(), format!("{rs}/r2")), vec!["g.ttl", "t5", "d/e", "a"]),
+            ((file_ns.clone(), format!("{rs}/r2")), vec!["a", "g", "t5.ttl"]),
+            (("http://e/ns/d/".into(), format!("{rs}/r1/d")), vec!["c.rdf", "c", "e", "t2.nt", "t2"]),
+        ];
+        let mut hist_cases: Vec<(usize, String)> = vec![];
+        let mut k = 0usize;
+        for x in &bases { for (m, tails) in &extras { for tail in tails {
+            let i0 = format!("{}{tail}", m.0);
+            let i1 = format!("{i0}#frag");
+            // the same document without its extension (content negotiation), or with one when it has none
+            let i2 = match tail.rfind('.') { Some(p) if p > 0 && !tail[p..].contains('/') => format!("{}{}", m.0, &tail[..p]), _ => format!("{i0}.ttl") };
+            let (mn, md) = (m.0.clone(), m.1.clone());
+            let mut xm = x.clone(); xm.push(m.clone());
+            use HOp::*;
+            let shapes: Vec<Vec<HOp>> = vec![
+                vec![New(x.clone()), Clone(0, 0), Add(1, mn.clone(), md.clone()), Get(1, i0.clone(), 0), Get(0, i0.clone(), 0), Get(0, i1.clone(), 0), Get(1, i1.clone(), 0), Get(1, i2.clone(), 4), Get(0, i2.clone(), 4)],
+                vec![New(x.clone()), Clone(0, 0), Add(1, mn.clone(), md.clone()), Get(0, i0.clone(), 0), Get(1, i0.clone(), 0), Get(0, i0.clone(), 0), Get(1, i2.clone(), 0), Get(0, i2.clone(), 0), Get(0, i1.clone(), 4)],
+                vec![New(x.clone()), Clone(0, 1), Clone(1, 2), Add(2, mn.clone(), md.clone()), Get(2, i0.clone(), 3), Get(1, i0.clone(), 3), Get(0, i0.clone(), 1), Reset(2), Get(1, i1.clone(), 0), Get(0, i1.clone(), 0), Get(2, i0.clone(), 0)],
+                vec![New(x.clone()), New(xm.clone()), Get(1, i0.clone(), 2), Get(0, i0.clone(), 2), Get(1, i2.clone(), 0), Get(0, i2.clone(), 0), Get(0, i1.clone(), 4)],
+                vec![New(xm.clone()), Clone(0, 0), Get(0, i0.clone(), 0), Reset(0), Get(0, i0.clone(), 0), Get(1, i0.clone(), 0), Get(0, i1.clone(), 0), Get(0, i2.clone(), 4)],
+                vec![New(x.clone()), Add(0, mn.clone(), md.clone()), Get(0, i0.clone(), 0), Clone(0, 2), Reset(0), Get(0, i0.clone(), 0), Get(1, i0.clone(), 0), Get(0, i2.clone(), 0)],
+                // the add goes to the ORIGINAL: the clone must not see it
+                vec![New(x.clone()), Clone(0, 0), Add(0, mn.clone(), md.clone()), Get(0, i0.clone(), 0), Get(1, i0.clone(), 0), Get(1, i1.clone(), 0), Get(0, i2.clone(), 0), Get(1, i2.clone(), 4)],
+                // three copies, the middle one extended, asked last-to-first and first-to-last
+                vec![New(x.clone()), Clone(0, 2), Clone(0, 0), Add(1, mn.clone(), md.clone()), Get(2, i0.clone(), 0), Get(1, i0.clone(), 1), Get(0, i0.clone(), 3), Get(0, i2.clone(), 0), Get(1, i2.clone(), 0), Get(2, i2.clone(), 0)],
+            ];
+            for ops in shapes {
+                let (c_ops, c_obs, trace, fails) = run_history(&ops);
+                let gets = ops.iter().filter(|o| matches!(o, Get(..))).count() as u64;
+                sum.evaluations += gets; sum.distinct_nontrivial += 1; sum.bump("history:directed"); sum.bump_by("history:gets", gets);
+                if trace.iter().any(|t| t.contains("-> Ok(")) { sum.bump("history:directed-with-a-file-served"); }
+                if k % 211 == 0 && sum.samples.len() < 10 { sum.samples.push(format!("directed history {k}: {}", trace.join("; "))); }
+                for f in fails { sum.oracle_failures.push((format!("history-directed-{k}"), f)); }
+                hist_cases.push((2_000_000 + k, format!("hist_ok the_fs2 Consts.loader_exts {c_ops} {c_obs}")));
+                k += 1;
+            }
+        } } }
+        let mut fs2: Vec<(Vec<String>, bool)> = vec![];
+        { let rc = comps(&root); for i in 1..=rc.len() { fs2.push((rc[..i].to_vec(), false)); } }
+        walk(&root, &mut fs2);
+        let c_fs2 = coq_list(fs2.iter().map(|(p, f)| format!("({}, {})", c_path(p), coq_bool(*f))));
+        let header2 = format!("{header}Definition the_fs2 : fsys := {c_fs2}.\n");
+        let dir2 = format!("{}/hist", a.out); std::fs::create_dir_all(&dir2).unwrap();
+        let sh2 = write_shards(&dir2, &header2, &hist_cases, 4);
+        for f in sh2 { let _ = std::fs::rename(format!("{dir2}/{f}"), format!("{}/hist_{f}", a.out)); extra_shards.push(format!("hist_{f}")); }
+        sum.extra.push(("directed_histories".into(), k.to_string()));
     }
     if a.only.is_none() {
         sum.shards = write_shards(&a.out, &header, &cases, a.shards);
